@@ -22,13 +22,15 @@ TECHNIQUE = ("stateful model-based testing: generated operation sequences "
              "run against a real working tree and an abstract tree model, "
              "full observation compared after every step and across re-open")
 RULE = ("Hypothesis draws a sequence of 5..30 (thorough 60) steps over the "
-        "names a-e at depth <= 3 while simulating the model, so every "
+        "names a-e, ab, a.b at depth <= 3 while simulating the model, so every "
         "argument is drawn from the current state (versioned / unversioned / "
         "missing paths, applicable and deliberately inapplicable targets): "
         "write, mkdir, symlink, chmod, delete-on-disk, kind change, add, "
         "smart_add, remove(keep|force), rename_one, move, commit, revert "
-        "(all | one path), reopen, observe at lock depth 1-3; once for bzr "
-        "2a and once for git. Non-trivial: the sequence contains a reopen "
+        "(all | one path), reopen, observe at lock depth 1-3, "
+        "set_parent_ids to an older commit and back (bzr); once for bzr 2a "
+        "(dirstate), once for git and once for a format-3 (inventory file) "
+        "bzr tree. Non-trivial: the sequence contains a reopen "
         "after >= 3 successful mutations of which >= 1 is a rename/move or "
         "remove, or a re-add after a remove, or a kind change followed by a "
         "revert. Distinct by case hash.")
@@ -58,7 +60,9 @@ ASSUMPTIONS = [
 ]
 NONTRIVIAL_FLOOR = {"quick": 60, "thorough": 1000}
 
-NAMES = ["a", "b", "c", "d", "e"]
+# (ab and a.b: names that extend another name as strings but are different
+# paths; '.' sorts before '/', 'b' after it)
+NAMES = ["a", "b", "c", "d", "e", "ab", "a.b"]
 TEXTS = ["", "alpha\n", "beta\n", "alpha\nbeta\n", "gamma", "delta\nzeta\n"]
 TARGETS = ["nowhere", "a", "b", "../a", "d", "../d", "d/a", "c/e"]
 MAX_DEPTH = 3
@@ -78,16 +82,34 @@ def _new_path(draw, m):
         return None
     d = _pick(draw, ds)
     used = set(m.children(d))
-    return join(d, _pick(draw, [n for n in NAMES if n not in used]))
+    free = [n for n in NAMES if n not in used]
+    # half of the time a name of the a / ab / a.b family, so that siblings
+    # whose names extend one another actually meet
+    fam = [n for n in free if n.startswith("a")]
+    if fam and draw(st.booleans()):
+        return join(d, _pick(draw, fam))
+    return join(d, _pick(draw, free))
 
 
 def _pick_ver(draw, m, ver):
     """A versioned path; half of the time a directory with versioned
     children when there is one (the hard shape for rename / move / remove)."""
     rich = [p for p in ver if m.has_versioned_children(p)]
+    twins = _twins(ver)
+    if twins and draw(st.integers(0, 2)) == 0:
+        return _pick(draw, twins)
     if rich and draw(st.booleans()):
         return _pick(draw, rich)
     return _pick(draw, ver)
+
+
+def _twins(paths):
+    """Paths that another path of the list extends as a string without being
+    below them (lib / lib.txt / library): where a prefix test without the
+    separator goes wrong."""
+    return [p for p in paths if any(
+        q != p and q.startswith(p) and not q.startswith(p + "/")
+        for q in paths)]
 
 
 def _any_path(draw, m):
@@ -98,24 +120,33 @@ def _any_path(draw, m):
 
 
 OPS = (["write"] * 5 + ["mkdir"] * 3 + ["symlink"] * 2 + ["chmod"] * 2 +
-       ["rm_disk"] * 2 + ["change_kind"] * 2 + ["add"] * 6 +
+       ["rm_disk"] * 3 + ["change_kind"] * 2 + ["add"] * 6 +
        ["smart_add"] * 3 + ["remove"] * 3 + ["rename_one"] * 6 +
        ["move"] * 6 + ["commit"] * 3 + ["revert"] * 2 + ["reopen"] * 3 +
-       ["observe"] * 1)
+       ["observe"] * 1 + ["reset_parents"] * 1 + ["rebase"] * 2)
 
 
 def draw_step(draw, m, op=None):
+    explicit = op
     if op is None:
         op = draw(st.sampled_from(OPS))
     files = [p for p, e in m.disk.items() if e[0] == "file"]
     links = [p for p, e in m.disk.items() if e[0] == "symlink"]
     ver = m.versioned_paths()
     unver = [p for p in m.disk if not m.is_versioned(p)]
+    if explicit is None and draw(st.integers(0, 2)) == 0 and any(
+            m.kind(p) is None for p in _twins(ver)):
+        # a missing versioned path whose name another one extends: let a
+        # commit drop it now
+        return ["commit"]
     if op == "write":
         if files and draw(st.booleans()):
             p = _pick(draw, files)
             c = draw(st.sampled_from(TEXTS))
-            return ["write", p, c, m.disk[p][2]]
+            # (content and mode of the same file edited together half of
+            # the time)
+            x = m.disk[p][2]
+            return ["write", p, c, (not x) if draw(st.booleans()) else x]
         p = _new_path(draw, m)
         if p is None:
             return None
@@ -141,6 +172,16 @@ def draw_step(draw, m, op=None):
     if op == "rm_disk":
         if not m.disk:
             return None
+        twins = [p for p in _twins(m.versioned_paths()) if p in m.disk]
+        # best: a directory whose name is extended by the name of another
+        # directory that has versioned children (a, ab/x)
+        best = [p for p in twins if m.real_dir(p) and any(
+            q.startswith(p) and not q.startswith(p + "/") and
+            m.has_versioned_children(q) for q in m.versioned_paths())]
+        if best and draw(st.integers(0, 3)) != 0:
+            return ["rm_disk", _pick(draw, best)]
+        if twins and draw(st.booleans()):
+            return ["rm_disk", _pick(draw, twins)]
         return ["rm_disk", _pick(draw, m.disk)]
     if op == "change_kind":
         if not m.disk:
@@ -162,6 +203,9 @@ def draw_step(draw, m, op=None):
             return ["add", _pick(draw, good or unver)]
         if r == 17 and ver:
             return ["add", _pick(draw, ver)]
+        orphans = [p for p in unver if not m.is_versioned(parent(p))]
+        if orphans:
+            return ["add", _pick(draw, orphans)]
         return ["add", _any_path(draw, m)]
     if op == "smart_add":
         on = sorted(m.disk)
@@ -187,6 +231,12 @@ def draw_step(draw, m, op=None):
         else:
             a = _any_path(draw, m)
         vdirs =[""] + [p for p in ver if m.real_dir(p)]
+        gone = [p for p in ver if m.kind(p) is None]
+        landed = [p for p in unver if m.is_versioned(parent(p))]
+        if gone and landed and draw(st.integers(0, 3)) == 0:
+            # "already moved by hand": the versioned source is missing and
+            # the target is an unversioned path that exists
+            return ["rename_one", _pick(draw, gone), _pick(draw, landed)]
         if draw(st.integers(0, 9)) < 7:
             # a target that can work: free name in a versioned directory
             # outside the source
@@ -237,6 +287,12 @@ def draw_step(draw, m, op=None):
         return ["revert", [_pick(draw, cands)]]
     if op == "reopen":
         return ["reopen"]
+    if op == "reset_parents":
+        return ["reset_parents"]
+    if op == "rebase":
+        if m.fmt != "bzr" or not m.history:
+            return None
+        return ["rebase", draw(st.integers(0, len(m.history) - 1))]
     return ["observe", draw(st.integers(1, 3))]
 
 
@@ -248,7 +304,7 @@ def _paths_of(step):
         return [step[1], step[2]]
     if op == "move":
         return list(step[1]) + [step[2]]
-    if op in ("commit", "reopen", "observe"):
+    if op in ("commit", "reopen", "observe", "reset_parents", "rebase"):
         return []
     return [step[1]]
 
@@ -264,10 +320,10 @@ def _clean(m, p):
     return True
 
 
-def gen_case(fmt, max_steps):
+def gen_case(fmt, max_steps, format=None):
     @st.composite
     def build(draw):
-        m = Model(fmt)
+        m = Model(fmt, wt3=format == "knit")
         steps = []
         n = draw(st.integers(5, max_steps))
         pre = []
@@ -305,7 +361,10 @@ def gen_case(fmt, max_steps):
             steps.append(s)
         if draw(st.integers(0, 9)) < 7:
             steps.append(["reopen"])
-        return {"fmt": fmt, "steps": steps}
+        case = {"fmt": fmt, "steps": steps}
+        if format:
+            case["format"] = format
+        return case
     return build()
 
 
@@ -314,9 +373,9 @@ def gen_case(fmt, max_steps):
 def _refusals(op):
     from breezy import errors
     from breezy.transport import NoSuchFile
-    from bzrformats.errors import NotVersionedError
+    from bzrformats.errors import AlreadyVersionedError, NotVersionedError
     if op == "add":
-        return (NoSuchFile, NotVersionedError)
+        return (NoSuchFile, NotVersionedError, AlreadyVersionedError)
     if op in ("rename_one", "move"):
         return (errors.BzrMoveFailedError, errors.RenameFailedFilesExist)
     return ()
@@ -370,12 +429,13 @@ def do_step(wt, s, root):
         wt.move(list(s[1]), s[2])
     elif op == "commit":
         if wt.branch.repository._format.supports_setting_revision_ids:
-            bz.commit(wt)
-        else:
-            wt.commit("m", timestamp=bz.T0, timezone=0,
-                      committer=bz.COMMITTER, allow_pointless=True)
+            return bz.commit(wt)
+        return wt.commit("m", timestamp=bz.T0, timezone=0,
+                         committer=bz.COMMITTER, allow_pointless=True)
     elif op == "revert":
         wt.revert(s[1], backups=False)
+    elif op == "reset_parents":
+        wt.set_parent_ids(wt.get_parent_ids())
     else:
         raise ValueError(s)
 
@@ -520,9 +580,11 @@ MUTATORS = {"write", "mkdir", "symlink", "chmod", "rm_disk", "change_kind",
 def run(case, env):
     fmt = case["fmt"]
     root = os.path.join(env.newdir(), "t")
-    wt = bz.init_tree(root, "2a" if fmt == "bzr" else "git")
-    m = Model(fmt)
+    wt = bz.init_tree(root, case.get("format") or (
+        "2a" if fmt == "bzr" else "git"))
+    m = Model(fmt, wt3=case.get("format") == "knit")
     idmap = {}
+    revs = []
     labels = set()
     muts = 0
     structural = False
@@ -546,6 +608,18 @@ def run(case, env):
                 labels.add("reopen-after-rename-or-remove")
             last_obs = after
             continue
+        if op == "rebase":
+            # status against an older commit (set_parent_trees with a real
+            # delta), then back to the tip
+            m.apply(s)
+            wt.set_parent_ids([revs[s[1]]])
+            old = m.clone()
+            old.basis = m.history[s[1]]
+            compare(old, observe(wt), idmap, "rebase", [i, s])
+            wt.set_parent_ids([revs[-1]])
+            last_obs = observe(wt)
+            compare(m, last_obs, idmap, "rebase-back", [i, s])
+            continue
         if op == "observe":
             obs = observe(wt, s[1])
             check(obs == last_obs, "C09/observation-depends-on-lock-depth",
@@ -555,7 +629,9 @@ def run(case, env):
         exp = m.apply(s)
         got = "ok"
         try:
-            do_step(wt, s, root)
+            r = do_step(wt, s, root)
+            if op == "commit":
+                revs.append(r)
         except _refusals(op) as e:
             got = "refuse"
             why = type(e).__name__
@@ -564,7 +640,11 @@ def run(case, env):
             # the step met the precondition of a listed defect: name it
             with_ = "-with-" + min(m.flags, key=lambda f: (
                 FLAG_ORDER.index(f) if f in FLAG_ORDER else 99, f))
-        if exp == "refuse":
+        if exp == "unchanged":
+            # silently ignored or refused, as the format likes: the state
+            # must not change either way
+            exp = "refuse"
+        elif exp == "refuse":
             check(got == "refuse", "C09/inapplicable-%s-accepted%s" % (
                 op, with_), {"step": [i, s]})
             refused += 1
@@ -616,9 +696,14 @@ def kinds(tier):
     n = 30 if tier == "quick" else 60
     return [
         Kind("bzr", run, strategy=gen_case("bzr", n),
-             examples={"quick": 300, "thorough": 8000}),
+             examples={"quick": 480, "thorough": 8000}),
         Kind("git", run, strategy=gen_case("git", n),
-             examples={"quick": 300, "thorough": 8000}),
+             examples={"quick": 480, "thorough": 8000}),
+        # an inventory-file working tree (format 3): the generic
+        # InventoryWorkingTree / MutableInventoryTree code paths that the
+        # dirstate tree overrides (move, apply_inventory_delta, unversion)
+        Kind("bzr-wt3", run, strategy=gen_case("bzr", n, format="knit"),
+             examples={"quick": 160, "thorough": 3000}),
     ]
 
 
